@@ -46,6 +46,18 @@ Theorem C03_depth_bounds :
 Proof. exact find_roots_depth. Qed.
 Print Assumptions C03_depth_bounds.
 
+(* ... and for ANY Depth (in particular d = 1) every followed direct predecessor of the given node
+   lies under a root: the two-sided bound is not exact further up (C03_depth_not_exact), but the
+   direct predecessors / referrers are never lost *)
+Theorem C03_direct_predecessors_covered :
+  forall (s : source) (fs : list filter) (rank : nat -> nat) (limit : Z) (node : desc)
+         (fuel : nat) (roots : list desc),
+    acyclic_source s rank ->
+    find_roots fuel s fs limit node = Some roots ->
+    forall p, In p (find_preds s fs (d_id node)) -> exists r, In r roots /\ anc s fs (d_id p) (d_id r).
+Proof. exact find_roots_direct_preds. Qed.
+Print Assumptions C03_direct_predecessors_covered.
+
 (* The loop terminates within the fuel the runner uses, on every finite source,
    for every depth, filter stack and served order (no acyclicity needed: the
    visited set bounds it). *)
